@@ -138,6 +138,18 @@ def ctx_match_def(cc, packet, cur):
                                                 len(cc.match_criteria))
 
 
+@uninterpreted('rec', 'packet', 'cur', 'bool')
+def dl_match(dl, packet, cur):
+    """all criteria of a discrete lookup entry hold"""
+    return all(sem_cmp(c, packet, cur) for c in dl.match_criteria)
+
+
+@axiom
+def dl_match_def(dl, packet, cur):
+    return dl_match(dl, packet, cur) == forall(lambda j: sem_cmp(at(dl.match_criteria, j), packet, cur), 0,
+                                               len(dl.match_criteria))
+
+
 # ---- calibration (C08) ----------------------------------------------------------------------------------------------------
 
 def chord(p0, p1, q):
@@ -196,6 +208,23 @@ def is_calibration(c, x, y):
 def poly_value(coeffs, x):
     """sum of a_i * x ** n_i over the coefficient list (real arithmetic, S3)"""
     return sum([c.coefficient * rpow(toreal(x), c.exponent) for c in coeffs])
+
+
+# ---- computed field lengths (C07) -----------------------------------------------------------------------------------------
+
+def trunc(x):
+    """int(x) of a real: truncation toward zero"""
+    return int(x)
+
+
+def first_lookup_value(lookups, packet, i):
+    """entry i is the FIRST entry of the list whose criteria all hold"""
+    return dl_match(at(lookups, i), packet, None) and forall(lambda k: not dl_match(at(lookups, k), packet, None), 0, i)
+
+
+@axiom
+def pow2_add(a, b):
+    return implies(a >= 0 and b >= 0, pow2(a + b) == pow2(a) * pow2(b))
 
 
 # ---- framing (C02 / C10): record boundaries of a byte stream -----------------------------------------------------------
